@@ -273,7 +273,7 @@ def run(ck):
             env, order = gen_graph(r, r.choice([3, 5, 7]))
             if not valid_c(env, order):
                 continue
-            for oi, o in enumerate(osets if not quick else [osets[0], osets[1], r.choice(osets[2:])]):
+            for oi, o in enumerate(osets if not quick else [osets[0], osets[1], osets[2], r.choice(osets[3:])]):
                 env2 = env
                 extra, mods = [], {}
                 # per-name exclusions / blocklist / opaque on one record for some runs
